@@ -78,19 +78,23 @@ func init() {
 		}
 		return s.NewListener(port)
 	}
-	haphttp.VerifBeforeLock = func(m *sync.Mutex) {
-		s := Current()
-		if s == nil || s.InTeardown() {
-			return
-		}
-		s.Park("lock", s.ActorName(-1), -1, "", func() bool {
-			if m.TryLock() {
-				m.Unlock()
-				return true
+	lockPark := func(kind string) func(m *sync.Mutex) {
+		return func(m *sync.Mutex) {
+			s := Current()
+			if s == nil || s.InTeardown() {
+				return
 			}
-			return false
-		})
+			s.Park(kind, s.ActorName(-1), -1, "", func() bool {
+				if m.TryLock() {
+					m.Unlock()
+					return true
+				}
+				return false
+			})
+		}
 	}
+	haphttp.VerifBeforeLock = lockPark("lock")
+	hap.VerifBeforeLock = lockPark("wlock")
 	hc.VerifResponder = func(r dnssd.Responder) dnssd.Responder {
 		st := &Responder{}
 		lastResponder.Store(st)
